@@ -54,8 +54,8 @@ def generate(ctx):
         for ci, (m, mode) in enumerate(combos):
             if (ci + rep * 7) % ctx.nshards != ctx.shard:
                 continue
-            cfg = gen.gen_cfg(ctx.rng, scale=ctx.rng.choice([1.0, 1.0, 1e-2, 1e2]),
-                              gammas=["default", "default", "one", "dep"])
+            cfg = league.league_cfg(ctx.rng, gen, scale=ctx.rng.choice([1.0, 1.0, 1e-2, 1e2]),
+                                    gammas=["default", "default", "one", "dep"])
             cfg["limit_sigma"] = ctx.rng.choice([False, True])
             yield "league", dict(model=m, cfg=cfg, players=40, games=G, mode=mode,
                                  seed=ctx.rng.randrange(2 ** 31), percall=ctx.rng.random() < 0.6)
@@ -119,6 +119,13 @@ def probe_league(ctx, payload):
         pre = snap_teams(teams)
         o = observe(model, "rate", teams, **kw)
         reg = f"league/{payload['mode']}"
+        if not league.in_box(cfg, teams):
+            # fed-back ratings walked out of the supported numeric range: the bound below is still judged when the call
+            # returns, but a failure to return is outside C08's box and is not an observation about this property
+            ctx.count("league_steps_outside_supported_range")
+            if o.exc is not None:
+                ctx.count("leagues_stopped_outside_supported_range")
+                return None
         if o.exc is not None or shape_error(pre, o.res):
             ctx.ev("no-return")
             ctx.violation("no-return", "league", dict(payload, stop_at=step),
